@@ -921,7 +921,7 @@ func runC13(c *Ctx) int {
 	workers := runtime.NumCPU()
 
 	// (a) lib level
-	nRR := c.Pick(3000, 100000)
+	nRR := c.Pick(10000, 100000)
 	codecParallel(nRR, workers, func(i int) {
 		cc := codecCounts{}
 		rng := c.Rand(fmt.Sprintf("rr/%d", i))
